@@ -15,7 +15,8 @@ struct op { char kind[8]; int q, s, n, blk, lck; };
 struct prog { char name[16]; int nops; struct op ops[MAXOPS]; };
 static struct prog P[8]; static int np;
 static struct cds_wfcq_head qh[2]; static struct cds_wfcq_tail qt[2];
-static struct cds_wfcq_node nodes[MAXN];
+#include "place.h"
+static struct cds_wfcq_node *nodes;	/* node n1 starts exactly at a 4 GiB boundary (place.h) */
 static int dequeued[MAXN];
 static int stateless;	/* odd seeds: a locked blocking dequeue uses the stateless entry point cds_wfcq_dequeue_blocking() (own wrapper in the
 			 * library, own lock acquisition); its result carries no LAST flag: the ret event says so ("ws":"n") */
@@ -116,6 +117,7 @@ int main(int argc, char **argv)
 		vrt_name_val(&qh[q].node, "Hq%d", q + 1);
 		char mn[16]; snprintf(mn, sizeof mn, "q%d.lock", q + 1); vrt_name_mutex(&qh[q].lock, mn);
 	}
+	nodes = place_at_boundary(sizeof *nodes, MAXN, 0x400000000UL);
 	for (int k = 0; k < MAXN; k++) { cds_wfcq_node_init(&nodes[k]); vrt_name(&nodes[k].next, VK_PTR, "n%d.next", k); vrt_name_val(&nodes[k], "n%d", k); }
 	for (int k = 0; k < np; k++) vrt_spawn(P[k].name, runner, &P[k]);
 	vrt_run(&o);
